@@ -37,7 +37,7 @@ TOPOLOGIES = {
 
 PROBES = ["game_started", "drain", "drain_during_eject", "multiball_add", "eject_failed_physically", "eject_retry_seen",
           "two_balls_loose", "lock_shot", "lock_release", "manual_plunge", "late_arrival", "fallback", "stuck",
-          "rest_reached", "bounce_off_full", "request_while_busy", "game_ended", "second_game", "ambiguous_reentry", "entrance_reentry_at_eject_timeout", "second_feed_request", "ball_saved", "double_drain", "late_arrival_at_missing_deadline", "add_ball_while_first_in_transit", "request_after_kick"]
+          "rest_reached", "bounce_off_full", "request_while_busy", "game_ended", "second_game", "ambiguous_reentry", "entrance_reentry_at_eject_timeout", "second_feed_request", "ball_saved", "double_drain", "late_arrival_at_missing_deadline", "add_ball_while_first_in_transit", "request_after_kick", "eject_attempt_held", "lane_return"]
 
 
 def warm():
@@ -62,7 +62,8 @@ def plan(ch, tier):
     wk = {"p_eject_fail": ch.pick("p_eject_fail", [0.0, 0.0, 0.1, 0.3])}
     ops = []
     n = 3 + ch.choice("nops", 16)
-    kinds = [("start", 3), ("drain", 6), ("pf_hit", 3), ("add_ball", 2), ("request", 1), ("wait", 2), ("end_game", 0.5)]
+    kinds = [("start", 3), ("drain", 6), ("pf_hit", 3), ("add_ball", 2), ("request", 1), ("wait", 2), ("end_game", 0.5),
+             ("lane_return", 1)]
     if TOPOLOGIES[topo]["locks"]:
         kinds += [("lock_shot", 4), ("lock_eject", 2)]
     if TOPOLOGIES[topo]["manual"]:
@@ -84,7 +85,12 @@ def plan(ch, tier):
         # make fall-backs likely in these runs: the interesting window is "request evaluated while the device's own
         # ball is under way and then comes back"
         wk["p_eject_fail"] = ch.pick("p_eject_fail_chain", [0.3, 0.5])
-    return {"knobs": knobs, "world": wk, "topo": topo, "nballs": nb, "ops": ops, "patches": patches, "react": react}
+    # a handler that holds the trough's eject-attempt queue event (what diverters and queue relays do)
+    hold = {"on": ch.flag("hold_attempt", 0.25), "secs": ch.pick("hold_secs", [1.5, 0.5, 3.0])}
+    # mechanical plunger: a ball may already rest in the lane at boot (nothing queued; the player plunges it by hand)
+    lane_ball = topo == "t4" and nb >= 2 and ch.flag("lane_ball_at_boot", 0.5)
+    return {"knobs": knobs, "world": wk, "topo": topo, "nballs": nb, "ops": ops, "patches": patches, "react": react,
+            "hold": hold, "lane_ball": lane_ball}
 
 
 def execute(ctx, plan, prop):
@@ -93,7 +99,10 @@ def execute(ctx, plan, prop):
     rules = RULES[prop]
     topo = TOPOLOGIES[plan["topo"]]
     patches = dict(plan["patches"])
-    patches["virtual_platform_start_active_switches"] = ", ".join(topo["trough_switches"][:plan["nballs"]])
+    start_sw = list(topo["trough_switches"][:plan["nballs"]])
+    if plan.get("lane_ball"):
+        start_sw[-1] = "s_plunger"
+    patches["virtual_platform_start_active_switches"] = ", ".join(start_sw)
     sim = ctx.new_sim(topo["machine"], platform="simhw", patches=patches, unit_test=False)
     sim.loop.stall_enabled = False
     sim.boot()
@@ -206,6 +215,14 @@ def execute(ctx, plan, prop):
             broken.add(name[len("balldevice_"):-len("_broken")])
     tap_events(sim, ev_listener)
 
+    hold = plan.get("hold") or {}
+    if hold.get("on"):
+        def hold_attempt(queue, **kwargs):
+            ctx.probe("eject_attempt_held")
+            queue.wait()
+            sim.after(hold["secs"] if in_workload[0] else 0.0, queue.clear)
+        m.events.add_handler("balldevice_%s_ball_eject_attempt" % topo["trough"], hold_attempt)
+
     def can_add(n=1):
         """A further ball may be requested only while the machine has one to give: the workload keeps the game's
         balls_in_play in step with its requests, which is only meaningful without over-subscription."""
@@ -253,6 +270,11 @@ def execute(ctx, plan, prop):
                 pf.add_ball()
                 pf.add_ball(source_device=m.ball_devices[topo["plunger_b"]])
                 m.game.balls_in_play += 2
+        elif k == "lane_return":
+            # a ball in play rolls back into the plunger lane
+            if "bd_plunger" in world.devs and world.devs["bd_plunger"].ball_switches and not topo["manual"]:
+                if world.loose_ball_into("bd_plunger", op["pick"]):
+                    ctx.probe("lane_return")
         elif k == "pf_hit":
             world.loose_ball_hits(topo["pf_switches"][op["pick"] % len(topo["pf_switches"])])
         elif k == "add_ball":
